@@ -33,12 +33,11 @@ Ctx0(c, flavour, dev) ==
   [ts |-> TS, doc |-> c.doc, op |-> c.doc.ops[1], vars |-> c.vars, rules |-> flavour = "static", dev |-> dev]
 
 \* ---- named deviations (known_findings/C10.json decides whether they are excused) ----
-AllDevs == {"DevSpreadNoTypePush", "DevTypenameNotCounted", "DevOmittedVarRuleError"}
+AllDevs == {"DevTypenameNotCounted", "DevOmittedVarRuleError"}
 Configured(run, k) == run.limits[k] >= 0
 \* can deviation d show on this run at all?
 Trigger(c, run, d) ==
-  CASE d = "DevSpreadNoTypePush"    -> run.flavour = "static" /\ Configured(run, "complexity") /\ TriggerSpreadNoTypePush(Ctx0(c, run.flavour, {}))
-    [] d = "DevTypenameNotCounted"  -> (Configured(run, "complexity") \/ Configured(run, "depth")) /\ TriggerTypenameNotCounted(Ctx0(c, run.flavour, {}))
+  CASE d = "DevTypenameNotCounted"  -> (Configured(run, "complexity") \/ Configured(run, "depth")) /\ TriggerTypenameNotCounted(Ctx0(c, run.flavour, {}))
     [] d = "DevOmittedVarRuleError" -> run.flavour = "static" /\ TriggerOmittedVarRuleError(Ctx0(c, run.flavour, {}))
 
 \* the request was refused before any resolver ran (errors that appear after resolvers ran belong to execution:
